@@ -136,10 +136,9 @@ func (c *HTTPHealthChecker) healthCheckLoop(ctx context.Context) {
 			c.logger.Debug("Health check loop stopping due to stop signal")
 			return
 		case <-c.ticker.C:
-			// Use a separate context for health checks to avoid cancelling mid-check
-			checkCtx, cancel := context.WithTimeout(context.Background(), DefaultHealthCheckInterval/2)
-			c.performHealthChecks(checkCtx)
-			cancel()
+			// Use a separate context for health checks to avoid cancelling mid-check; how long
+			// the round may take follows from the endpoints that are due (performHealthChecks)
+			c.performHealthChecks(context.Background())
 		}
 	}
 }
@@ -170,6 +169,19 @@ func (c *HTTPHealthChecker) performHealthChecks(ctx context.Context) {
 	}
 
 	c.logger.Debug("Performing health checks", "endpoints_to_check", len(endpointsToCheck))
+
+	// The round as a whole is bounded too, but never more tightly than its slowest member is
+	// allowed to be: every probe may use its endpoint's check_timeout (twice that, with retries),
+	// and validation accepts values up to 30s. A fixed limit of half the tick interval cut such
+	// probes off at 15s and stored a backend that was about to answer as offline.
+	roundLimit := DefaultHealthCheckInterval / 2
+	for _, endpoint := range endpointsToCheck {
+		if allowed := 2*endpoint.CheckTimeout + time.Second; allowed > roundLimit {
+			roundLimit = allowed
+		}
+	}
+	ctx, cancelRound := context.WithTimeout(ctx, roundLimit)
+	defer cancelRound()
 
 	// Limit concurrency to avoid overwhelming the health client
 	semaphore := make(chan struct{}, DefaultConcurrentChecks)
